@@ -15,7 +15,11 @@ import (
 	"verifharness/internal/cases"
 	"verifharness/internal/cq"
 	"verifharness/internal/framefmt"
+	"verifharness/internal/noise"
 )
+
+// nr drives the unrelated library calls made between the compared calls (own stream: case generation is unaffected)
+var nr *cq.RNG
 
 func hx(b []byte) string { return fmt.Sprintf("%x", b) }
 
@@ -131,37 +135,146 @@ func tamper(r *cq.RNG, mic lorawan.MIC, how int) lorawan.MIC {
 
 var hows = []string{"valid", "random", "bitflip", "first-half", "second-half"}
 
-func upCase(s *cases.Set, r *cq.RNG, p lorawan.PHYPayload, v lorawan.MACVersion, conf uint32, dr, ch uint8, fk, sk lorawan.AES128Key, how int, kind string) {
+// upCaseM: one compared uplink case. fixed == nil: the carried MIC is the one just set, changed as `how` says;
+// fixed != nil: the frame carries *fixed (a MIC that was valid for a neighbouring call). quiet: no unrelated calls
+// in between (neighbour families run back to back). Returns the MIC Set computed.
+func upCaseM(s *cases.Set, r *cq.RNG, p lorawan.PHYPayload, v lorawan.MACVersion, conf uint32, dr, ch uint8, fk, sk lorawan.AES128Key, how int, kind, what string, fixed *lorawan.MIC, quiet bool) (lorawan.MIC, bool) {
+	if !quiet {
+		noise.Step(nr)
+	}
 	oset, mic, ok := setUp(p, v, conf, dr, ch, fk, sk)
-	if ok {
+	if fixed != nil {
+		p.MIC = *fixed
+	} else if ok {
 		p.MIC = tamper(r, mic, how)
 	}
 	t := framefmt.Phy(p, 0)
 	oval := valUp(p, v, conf, dr, ch, fk, sk)
 	ovalf := valUpF(p, fk)
+	key := fmt.Sprintf("up:%s:conf=%d:txdr=%d:txch=%d:fkey=%s:skey=%s:mic=%s:%s", ver(v), conf, dr, ch, hx(fk[:]), hx(sk[:]), what, t)
+	rp := map[string]interface{}{"api": "SetUplinkDataMIC on a copy, then ValidateUplinkDataMIC / ValidateUplinkDataMICF on the frame as given",
+		"macVersion": ver(v), "confFCnt": conf, "txDR": dr, "txCh": ch, "fNwkSIntKey": hx(fk[:]), "sNwkSIntKey": hx(sk[:]), "frame": t,
+		"carried_mic": what, "previous_compared_call": lastKey, "observed": map[string]string{"set": oset, "validate": oval, "validateF": ovalf}}
 	s.Add(cases.Case{
 		Term: fmt.Sprintf("CUp %s %d %d %d %s %s %s %s %s %s", ver(v), conf, dr, ch, cq.Bytes(fk[:]), cq.Bytes(sk[:]), t, oset, oval, ovalf),
-		Key:  fmt.Sprintf("up:%s:conf=%d:txdr=%d:txch=%d:fkey=%s:skey=%s:mic=%s:%s", ver(v), conf, dr, ch, hx(fk[:]), hx(sk[:]), hows[how], t),
-		Kind: kind, Nontrivial: true,
-		Replay: map[string]interface{}{"api": "SetUplinkDataMIC on a copy, then ValidateUplinkDataMIC / ValidateUplinkDataMICF on the frame as given",
-			"macVersion": ver(v), "confFCnt": conf, "txDR": dr, "txCh": ch, "fNwkSIntKey": hx(fk[:]), "sNwkSIntKey": hx(sk[:]), "frame": t,
-			"observed": map[string]string{"set": oset, "validate": oval, "validateF": ovalf}}})
+		Key:  key, Kind: kind, Nontrivial: true, Replay: rp})
+	lastKey = clip(key)
+	q := p
+	s.Remember(key, oset+" "+oval+" "+ovalf, rp, func() string {
+		a, _, _ := setUp(q, v, conf, dr, ch, fk, sk)
+		return a + " " + valUp(q, v, conf, dr, ch, fk, sk) + " " + valUpF(q, fk)
+	})
+	return mic, ok
 }
 
-func downCase(s *cases.Set, r *cq.RNG, p lorawan.PHYPayload, v lorawan.MACVersion, conf uint32, sk lorawan.AES128Key, how int, kind string) {
+func upCase(s *cases.Set, r *cq.RNG, p lorawan.PHYPayload, v lorawan.MACVersion, conf uint32, dr, ch uint8, fk, sk lorawan.AES128Key, how int, kind string) {
+	upCaseM(s, r, p, v, conf, dr, ch, fk, sk, how, kind, hows[how], nil, false)
+}
+
+func downCaseM(s *cases.Set, r *cq.RNG, p lorawan.PHYPayload, v lorawan.MACVersion, conf uint32, sk lorawan.AES128Key, how int, kind, what string, fixed *lorawan.MIC, quiet bool) (lorawan.MIC, bool) {
+	if !quiet {
+		noise.Step(nr)
+	}
 	oset, mic, ok := setDown(p, v, conf, sk)
-	if ok {
+	if fixed != nil {
+		p.MIC = *fixed
+	} else if ok {
 		p.MIC = tamper(r, mic, how)
 	}
 	t := framefmt.Phy(p, 0)
 	oval := valDown(p, v, conf, sk)
+	key := fmt.Sprintf("down:%s:conf=%d:skey=%s:mic=%s:%s", ver(v), conf, hx(sk[:]), what, t)
+	rp := map[string]interface{}{"api": "SetDownlinkDataMIC on a copy, then ValidateDownlinkDataMIC on the frame as given",
+		"macVersion": ver(v), "confFCnt": conf, "sNwkSIntKey": hx(sk[:]), "frame": t, "carried_mic": what, "previous_compared_call": lastKey,
+		"observed": map[string]string{"set": oset, "validate": oval}}
 	s.Add(cases.Case{
 		Term: fmt.Sprintf("CDown %s %d %s %s %s %s", ver(v), conf, cq.Bytes(sk[:]), t, oset, oval),
-		Key:  fmt.Sprintf("down:%s:conf=%d:skey=%s:mic=%s:%s", ver(v), conf, hx(sk[:]), hows[how], t),
-		Kind: kind, Nontrivial: true,
-		Replay: map[string]interface{}{"api": "SetDownlinkDataMIC on a copy, then ValidateDownlinkDataMIC on the frame as given",
-			"macVersion": ver(v), "confFCnt": conf, "sNwkSIntKey": hx(sk[:]), "frame": t,
-			"observed": map[string]string{"set": oset, "validate": oval}}})
+		Key:  key, Kind: kind, Nontrivial: true, Replay: rp})
+	lastKey = clip(key)
+	q := p
+	s.Remember(key, oset+" "+oval, rp, func() string {
+		a, _, _ := setDown(q, v, conf, sk)
+		return a + " " + valDown(q, v, conf, sk)
+	})
+	return mic, ok
+}
+
+func downCase(s *cases.Set, r *cq.RNG, p lorawan.PHYPayload, v lorawan.MACVersion, conf uint32, sk lorawan.AES128Key, how int, kind string) {
+	downCaseM(s, r, p, v, conf, sk, how, kind, hows[how], nil, false)
+}
+
+var lastKey = "(none)"
+
+func clip(k string) string {
+	if len(k) > 300 {
+		return k[:300] + "..."
+	}
+	return k
+}
+
+// withFCnt returns a copy of the frame (own MACPayload) with another FCnt / ACK flag.
+func withFCnt(p lorawan.PHYPayload, fcnt uint32) lorawan.PHYPayload {
+	m := *p.MACPayload.(*lorawan.MACPayload)
+	m.FHDR.FCnt = fcnt
+	p.MACPayload = &m
+	return p
+}
+
+func otherVer(v lorawan.MACVersion) lorawan.MACVersion {
+	if v == lorawan.LoRaWAN1_0 {
+		return lorawan.LoRaWAN1_1
+	}
+	return lorawan.LoRaWAN1_0
+}
+
+// family: a base call whose frame carries its valid MIC, then back to back the same call with exactly one input
+// changed (the frame still carrying the base MIC), then the base call again. The library keeps no state between
+// calls: each neighbour must be judged on its own inputs (most of them must be rejected).
+func family(s *cases.Set, r *cq.RNG, p lorawan.PHYPayload, up bool, v lorawan.MACVersion, conf uint32, dr, ch uint8, fk, sk lorawan.AES128Key, i int) {
+	m := p.MACPayload.(*lorawan.MACPayload)
+	fc := m.FHDR.FCnt
+	var zero lorawan.AES128Key
+	noise.Step(nr)
+	if up {
+		mic, ok := upCaseM(s, r, p, v, conf, dr, ch, fk, sk, 0, "family-up-base", "valid", nil, true)
+		if !ok {
+			return
+		}
+		one := func(q lorawan.PHYPayload, v lorawan.MACVersion, conf uint32, dr, ch uint8, fk, sk lorawan.AES128Key, what string) {
+			upCaseM(s, r, q, v, conf, dr, ch, fk, sk, 0, "family-up", "base-mic:"+what, &mic, true)
+		}
+		for _, b := range []uint{16, 31, 16 + uint(i%16), uint(i % 16)} {
+			one(withFCnt(p, fc^(1<<b)), v, conf, dr, ch, fk, sk, fmt.Sprintf("fcnt-bit%d", b))
+		}
+		one(withFCnt(p, fc+0x10000), v, conf, dr, ch, fk, sk, "fcnt+2^16")
+		one(p, v, conf+1, dr, ch, fk, sk, "conf+1")
+		one(p, v, conf+0x10000, dr, ch, fk, sk, "conf+2^16")
+		one(p, v, conf, dr^1, ch, fk, sk, "txdr^1")
+		one(p, v, conf, dr, ch^0x80, fk, sk, "txch^0x80")
+		one(p, v, conf, dr, ch, zero, sk, "fkey-zero")
+		one(p, v, conf, dr, ch, fk, zero, "skey-zero")
+		one(p, v, conf, dr, ch, fk, fk, "skey=fkey")
+		one(p, v, conf, dr, ch, sk, fk, "keys-swapped")
+		one(p, otherVer(v), conf, dr, ch, fk, sk, "other-version")
+		one(p, v, conf, dr, ch, fk, sk, "base-again")
+	} else {
+		mic, ok := downCaseM(s, r, p, v, conf, sk, 0, "family-down-base", "valid", nil, true)
+		if !ok {
+			return
+		}
+		one := func(q lorawan.PHYPayload, v lorawan.MACVersion, conf uint32, sk lorawan.AES128Key, what string) {
+			downCaseM(s, r, q, v, conf, sk, 0, "family-down", "base-mic:"+what, &mic, true)
+		}
+		for _, b := range []uint{16, 31, 16 + uint(i%16), uint(i % 16)} {
+			one(withFCnt(p, fc^(1<<b)), v, conf, sk, fmt.Sprintf("fcnt-bit%d", b))
+		}
+		one(withFCnt(p, fc+0x10000), v, conf, sk, "fcnt+2^16")
+		one(p, v, conf+1, sk, "conf+1")
+		one(p, v, conf+0x10000, sk, "conf+2^16")
+		one(p, v, conf, zero, "skey-zero")
+		one(p, otherVer(v), conf, sk, "other-version")
+		one(p, v, conf, sk, "base-again")
+	}
 }
 
 func cmacCase(s *cases.Set, k, m []byte, name string) {
@@ -194,8 +307,9 @@ func main() {
 	log.SetOutput(io.Discard)
 	dir, seed, thorough := cases.Args()
 	r := cq.NewRNG(seed)
+	nr = cq.NewRNG(seed ^ 0x9e3779b97f4a7c15)
 	s := cases.New("C02", dir, "LW.Corr.C02",
-		"RFC 4493 examples 1-4 and FIPS-197 C.1 first; then data frames (framefmt.DataFrame) whose MIC message length is cycled over 1..16 CMAC blocks (FRMPayload length chosen for it), FCnt with high bits in 70%, ConfFCnt with high bits in 70%, ACK alternating, both MAC versions, txDR/txCh cycled over all byte values, random/degenerate keys, carried MIC = valid / random / one bit flipped / first half changed / second half changed; validate also called with the other direction's function; malformed: nil MACPayload, wrong payload type, unencodable frame (16-byte FOpts, MAC command on port > 0). Every case is distinct by construction (random keys).")
+		"RFC 4493 examples 1-4 and FIPS-197 C.1 first; then data frames (framefmt.DataFrame) whose MIC message length is cycled over 1..16 CMAC blocks (FRMPayload length chosen for it), FCnt with high bits in 70%, ConfFCnt with high bits in 70%, ACK alternating, both MAC versions, txDR/txCh cycled over all byte values, random/degenerate keys, carried MIC = valid / random / one bit flipped / first half changed / second half changed; validate also called with the other direction's function; malformed: nil MACPayload, wrong payload type, unencodable frame (16-byte FOpts, MAC command on port > 0). History: unrelated library calls (internal/noise) before every compared call; neighbour families run back to back (a base call whose frame carries its valid MIC, then the same call with exactly one input changed - single FCnt bits 16, 31, one more high and one low bit, FCnt + 2^16, ConfFCnt + 1 / + 2^16, txDR, txCh, each key zeroed, keys equal, keys swapped, other version - the frame still carrying the base MIC, then the base call again), each an ordinary case compared with model and specification; every compared call is repeated three times later in the process (reverse, same, shuffled order) and must give its first result. Cases are distinct by construction (random keys) except the repeated base calls.")
 	s.ShardSize = 60
 	n := 600
 	if thorough {
@@ -270,6 +384,16 @@ func main() {
 		} else {
 			downCase(s, r, p, v, conf, sk, how, "down-"+ver(v))
 		}
+		if i%4 == 1 { // neighbour family on a fresh frame of moderate size
+			o2 := framefmt.ValidDataOpt(r)
+			if o2.FRMLen > 60 {
+				o2.FRMLen = r.Intn(61)
+			}
+			q := framefmt.DataFrame(r, o2)
+			q.MACPayload.(*lorawan.MACPayload).FHDR.FCtrl.ACK = i%2 == 0
+			fam := q.MHDR.MType == lorawan.UnconfirmedDataUp || q.MHDR.MType == lorawan.ConfirmedDataUp
+			family(s, r, q, fam, vers[(i/4)%2], counter(r), dr, ch, key(r), key(r), i)
+		}
 		if i%10 == 3 { // malformed stream
 			q := framefmt.DataFrame(r, framefmt.ValidDataOpt(r))
 			switch r.Intn(4) {
@@ -295,6 +419,7 @@ func main() {
 			}
 		}
 	}
+	s.ReplayRemembered(nr.Intn, 3, func() { noise.Step(nr) })
 	if err := s.Finish(); err != nil {
 		fmt.Fprintln(os.Stderr, err)
 		os.Exit(2)
